@@ -462,6 +462,71 @@ def complex_mask_store_case(base, abi, lanes, cfg):
             ens.append((c, k, E.sel(bit, E.inp(a, k), E.inp(c, k))))
     return Case('C08/cmask_store/c%s/%s/%s' % (base.name, abi, cfg.tag()), 'C08', body, [a, c], ens, 'SYM', cfg, scalars=[m])
 
+def _prod_sum(x1, y1, x2, y2, minus, variant):
+    """x1*y1 +/- x2*y2 in one admissible floating-point evaluation: 'plain' two rounded products combined; 'fma1' the first
+    product fused into the add; 'fma2'/'fma2n' the second one fused (for a difference the sign goes to either factor)."""
+    p1 = x1 * y1; p2 = x2 * y2
+    if variant == 'plain': return p1 - p2 if minus else p1 + p2
+    if variant == 'fma1': return E.fma(x1, y1, -p2 if minus else p2)
+    if variant == 'fma2': return E.fma(-x2, y2, p1) if minus else E.fma(x2, y2, p1)
+    if variant == 'fma2n': return E.fma(x2, -y2, p1) if minus else E.fma(x2, y2, p1)
+    raise ValueError(variant)
+
+def complex_arith_case(base, abi, lanes, op, cfg, inplace=False, variant='plain'):
+    """arithmetic on complex SIMD vectors (split real/imaginary registers), lane by lane against the scalar definition:
+    (a*b) = (ar*br - ai*bi, ar*bi + ai*br);  a/b = ((ar*br + ai*bi)/d, (ai*br - ar*bi)/d), d = br*br + bi*bi;
+    rcp(a) = (ar/d, -(ai/d)), d = ar*ar + ai*ai;  conj, +, - componentwise.  UF: products, sums and quotients are
+    uninterpreted; a sum of two products may be evaluated plainly or with one product fused into a multiply-add: the
+    variants of one (type, ABI, operation) form an alternative group that holds when one of them is proved."""
+    C = 'std::complex<%s>' % base.cpp
+    a = Buf('a', base, 2 * lanes, 'in'); b = Buf('b', base, 2 * lanes, 'in'); c = Buf('c', base, 2 * lanes, 'out')
+    sym = {'add': '+', 'sub': '-', 'mul': '*', 'div': '/'}
+    if op in sym:
+        stmt = ('V vc = va %s vb;' % sym[op]) if not inplace else ('V vc(va); vc %s= vb;' % sym[op])
+    elif op == 'rcp': stmt = 'V vc = rcp(va);'
+    elif op == 'conj': stmt = 'V vc = conj(va);'
+    body = ('    using V = SIMDVector<%s,simd_abi::%s>;\n    static_assert(V::Size == %d, "lane count");\n'
+            '    V va(reinterpret_cast<const %s*>(a), false); V vb(reinterpret_cast<const %s*>(b), false);\n    %s\n'
+            '    vc.store(reinterpret_cast<%s*>(c), false);' % (C, abi, lanes, C, C, stmt, C))
+    v = variant.split('+')[0]; negq = variant.endswith('+negnum')
+    ens = []
+    # + - conj state every lane (they also pin the de-interleaving load and the interleaving store lane by lane); the
+    # product/quotient formulas are stated on the first and last lane (all lanes run the same vertical instructions)
+    for i in (range(lanes) if op in ('add', 'sub', 'conj') else sorted({0, lanes - 1})):
+        ar, ai, br, bi = E.inp(a, 2 * i), E.inp(a, 2 * i + 1), E.inp(b, 2 * i), E.inp(b, 2 * i + 1)
+        if op == 'add': ens += [(c, 2 * i, ar + br), (c, 2 * i + 1, ai + bi)]
+        elif op == 'sub': ens += [(c, 2 * i, ar - br), (c, 2 * i + 1, ai - bi)]
+        elif op == 'conj': ens += [(c, 2 * i, ar), (c, 2 * i + 1, -ai)]
+        elif op == 'mul':
+            ens += [(c, 2 * i, _prod_sum(ar, br, ai, bi, True, v)), (c, 2 * i + 1, _prod_sum(ar, bi, ai, br, False, v))]
+        elif op == 'div':
+            d = _prod_sum(br, br, bi, bi, False, v)
+            ens += [(c, 2 * i, _prod_sum(ar, br, ai, bi, False, v) / d), (c, 2 * i + 1, _prod_sum(ai, br, ar, bi, True, v) / d)]
+        elif op == 'rcp':
+            d = _prod_sum(ar, ar, ai, ai, False, v)
+            ens += [(c, 2 * i, ar / d), (c, 2 * i + 1, (-ai) / d if negq else -(ai / d))]
+    cfg0 = Cfg(cfg.isa, cfg.std, cfg.macros, pipe='P0')
+    grp = 'C08/c%s%s/c%s/%s/%s' % (op, '-assign' if inplace else '', base.name, abi, cfg0.tag())
+    cs = Case(grp + ('/alt-' + variant if op in ('mul', 'div', 'rcp') else ''), 'C08', body, [a, b, c], ens, 'UF', cfg0)
+    if op in ('mul', 'div', 'rcp'): cs.alt_group = grp
+    return cs
+
+def complex_arith_cases(isa, thorough):
+    out = []
+    abis = {'sse2': [('sse', 16)], 'sse4.2': [('sse', 16)], 'avx': [('avx', 32), ('sse', 16)], 'avx2': [('avx', 32), ('sse', 16)],
+            'avx512': [('avx512', 64), ('avx', 32)]}.get(isa, [])
+    fma = isa in ('avx2', 'avx512')          # the flag sets of these two carry -mfma
+    for abi, nbytes in abis:
+        for base in (DBL, FLT):
+            lanes = nbytes * 8 // base.bits
+            for op in ('add', 'sub', 'mul', 'div', 'rcp', 'conj'):
+                variants = ['plain']
+                if op in ('mul', 'div', 'rcp') and fma: variants = ['plain', 'fma1', 'fma2']
+                for v in variants:
+                    out.append(complex_arith_case(base, abi, lanes, op, Cfg(isa), variant=v))
+                    if op in ('mul', 'div') and (thorough or base is DBL): out.append(complex_arith_case(base, abi, lanes, op, Cfg(isa), inplace=True, variant=v))
+    return out
+
 def cases(tier, seed):
     rng = random.Random(seed)
     out = []
@@ -473,6 +538,7 @@ def cases(tier, seed):
             if lvl == 'sample': cs = [c for c in cs if SAMPLE.match(c.cid.split('/')[1])]
             elif lvl == 'sens': cs = [c for c in cs if ISA_SENSITIVE.match(c.cid.split('/')[1])]
             out += cs
+        out += complex_arith_cases(isa, thorough)
         if isa == 'avx512':
             out.append(complex_mask_store_case(DBL, 'avx512', 8, P1))
             out.append(complex_mask_store_case(FLT, 'avx', 8, P1))
